@@ -69,6 +69,42 @@ class SimLock:
     self.release()
 
 
+class SimSemaphore:
+  """Counting semaphore with SimLock's scheduling behaviour (a server's worker-thread pool)."""
+
+  def __init__(self, n, name='pool'):
+    self.n = n
+    self.free = n
+    self.name = name
+
+  @property
+  def held(self):  # what Sched looks at to decide whether a blocked thread can run
+    return self.free <= 0
+
+  def acquire(self):
+    s = _ACTIVE[0]
+    if s is None or s.cur is None:
+      if self.free <= 0:
+        raise RuntimeError(f'sequential code blocked on exhausted pool {self.name}')
+      self.free -= 1
+      return
+    s.yield_('acq:' + self.name)
+    while self.free <= 0:
+      s.cur['blocked_on'] = self
+      s.stats['blocked'] = s.stats.get('blocked', 0) + 1
+      s.yield_('blocked:' + self.name)
+    self.free -= 1
+
+  def release(self):
+    self.free += 1
+    s = _ACTIVE[0]
+    if s is not None and s.cur is not None:
+      s.yield_('rel:' + self.name)
+
+  def reset(self):
+    self.free = self.n
+
+
 class ThreadingShim:
   """Stands in for the `threading` module inside the service modules."""
 
